@@ -57,7 +57,7 @@ REQUIRED = (["op:%s:accepted" % o for o in OPS] + ["op:%s:rejected" % o for o in
   "flavor:push_child[doc-mismatch]", "flavor:push_children[Ruby:plain]", "flavor:push_children[Rtc:plain]",
   "flavor:push_children[Rtc:sequence]", "flavor:push_children[Ruby:irregular]",
   "flavor:set_region[registered]", "flavor:set_region[same-id-foreign-doc]", "flavor:set_region[no-doc]",
-  "flavor:put_region[replace-referenced]", "flavor:put_region[new]", "flavor:remove_region[referenced-in-body]",
+  "flavor:put_region[replace-referenced-in-body]", "flavor:put_region[replace-referenced-off-body]", "flavor:put_region[new]", "flavor:remove_region[referenced-in-body]", "flavor:remove_region[referenced-off-body]",
   "flavor:set_doc[detach]", "flavor:set_doc[attach]", "flavor:set_doc[detach-subtree]", "flavor:set_doc[attach-subtree]",
   "flavor:set_style[invalid-value]", "flavor:set_style[valid]", "flavor:add_animation_step[valid]",
   "flavor:put_initial_value[invalid-value]", "cls:fontfamily-bad-item", "cls:ruby-complete", "cls:rtc-delimited",
@@ -66,6 +66,9 @@ SHARD_TIMEOUT = {"quick": 600, "thorough": 5400}
 
 WALK_LEN = 40
 N_SHARDS = 16
+# known finding: after an accepted remove_region / replacing put_region the ONLY broken invariant is region-ref and EVERY
+# element left with the stale reference is outside the body tree of its document (its root is not the document's body)
+KNOWN_OFF_BODY = "D-REGION-REF-OFF-BODY"
 CALL_CPU_BUDGET = 0.5          # seconds of CPU one model API call may burn before the watchdog interrupts it
 ADDRESS_SPACE_LIMIT = 6 << 30  # a runaway call must not take the machine down
 
@@ -402,7 +405,7 @@ class NullCtx:
 
 
 class Result:
-  __slots__ = ("post", "accepted", "err", "violated", "structural", "issue_keys", "changed", "struct_changed")
+  __slots__ = ("post", "accepted", "err", "violated", "finding", "structural", "issue_keys", "changed", "struct_changed")
 
 
 def step(ctx, u, op, pre, hist, known=frozenset()):
@@ -421,6 +424,7 @@ def step(ctx, u, op, pre, hist, known=frozenset()):
     res.post, res.accepted, res.err, res.issue_keys = pre, False, err, frozenset()
     res.changed = res.struct_changed = False
     res.violated = res.structural = True
+    res.finding = False
     ctx.violation(f"call-does-not-return:{name}[{flavor}]",
                   f"universe '{u.which}', history: " + "; ".join(fmt(h) for h in hist) + f" -- the last call was interrupted by the "
                   f"watchdog ({err}); no model state is reached after this history",
@@ -438,32 +442,46 @@ def step(ctx, u, op, pre, hist, known=frozenset()):
   res.changed = post != pre
   res.struct_changed = accepted and res.changed and M.structure_changed(pre, post)
   res.violated = False
+  res.finding = False
   res.structural = any(i[0] in wf.STRUCTURAL for i in issues)
   tag = f"{name}[{flavor}]" + ("" if accepted else ":rejected")
   outcome = "accepted" if accepted else f"rejected ({err})"
   where = f"universe '{u.which}', history: " + "; ".join(fmt(h) for h in hist) + f" -- last call {outcome}"
   payload = None
 
-  def report(mech, what):
+  def report(mech, what, finding=None):
     nonlocal payload
     if payload is None:
       payload = {"universe": u.which, "ops": [list(h) for h in hist]}
-    res.violated = True
-    ctx.violation(mech, what, payload)
+    if finding is None:
+      res.violated = True
+    else:
+      res.finding = True
+    ctx.violation(mech, what, payload, finding)
 
-  new = {}
+  new, new_objs = {}, {}
   for inv, obj, detail in issues:
     if (inv, obj) not in known:
       new.setdefault(inv, []).append(f"{obj}: {detail}")
+      new_objs.setdefault(inv, []).append(obj)
+  finding_only = False
   for inv, items in new.items():
-    report(f"{inv}:{tag}", f"{inv} violated after {where}. " + " | ".join(items[:4]))
+    mech, finding = f"{inv}:{tag}", None
+    if inv == "region-ref" and accepted and (name == "remove_region" or (name == "put_region" and flavor.startswith("replace"))):
+      # where the elements left with a stale reference sit: the document can only reach its body tree
+      off = all(M.off_body(post, o) for o in new_objs[inv] if o in post["el"])
+      mech = f"{inv}:{name}[stale-{'off' if off else 'in'}-body]"
+      if off and len(new) == 1:
+        finding = KNOWN_OFF_BODY
+        finding_only = True
+    report(mech, f"{inv} violated after {where}. " + " | ".join(items[:4]), finding)
 
   if not accepted and M.single_element(pre, op):
     ctx.count("mon:rejected-unchanged")
     if res.changed:
       report(f"rejected-changed:{name}[{flavor}]",
              f"rejected single-element call changed the public state: {where}. " + " | ".join(wf.diff(pre, post)))
-  elif accepted and not new:
+  elif accepted and (not new or finding_only):
     pred = M.predict(pre, op, P, flavor)
     if pred is not None:
       ctx.count("mon:post-state")
@@ -505,18 +523,18 @@ def run_ex(ctx, p):
   first = part == 0 and record_from == 1
   ctx.count("ex:alphabet", len(alpha) if first else 0)
   visited = {wf.freeze(s0)}
-  frontier = [([], s0, False)]
+  frontier = [([], s0, False, frozenset())]
   null = NullCtx()
   for level in range(1, depth + 1):
     nxt = []
     rec = ctx if (level >= record_from and (level > 1 or part == 0)) else null
-    for prefix, pre, nt in frontier:
+    for prefix, pre, nt, known in frontier:
       for op in alpha:
         u = build(which)
         for q in prefix:
           execute(u, q)
         hist = prefix + [op]
-        res = step(rec, u, op, pre, hist)
+        res = step(rec, u, op, pre, hist, known)
         rec.count("ex:histories")
         rec.count(f"ex:histories:len{level}")
         nontriv = nt or res.struct_changed
@@ -534,7 +552,9 @@ def run_ex(ctx, p):
         visited.add(key)
         if level > 1 or first:
           ctx.count(f"ex:states-to-expand:after-len{level}")
-        nxt.append((hist, res.post, nontriv))
+        if res.finding:
+          rec.count("ex:extended-past-known-finding")
+        nxt.append((hist, res.post, nontriv, res.issue_keys))
     if level == 1:
       ctx.count("ex:frontier-after-level1", len(nxt) if first else 0)
       nxt = nxt[part::parts]
@@ -672,7 +692,7 @@ def run_rw(ctx, p):
     rng = ctx.rng("walk", w)
     u = build(which)
     pre = u.snapshot()
-    hist, outcomes, nontriv = [], [], False
+    hist, outcomes, nontriv, known = [], [], False, frozenset()
 
     def close_segment():
       ctx.count("rw:segments")
@@ -682,18 +702,21 @@ def run_rw(ctx, p):
     for _ in range(WALK_LEN):
       op = random_op(rng, u, pre)
       hist.append(op)
-      res = step(ctx, u, op, pre, hist)
+      res = step(ctx, u, op, pre, hist, known)
       outcomes.append("acc" if res.accepted else "rej")
       nontriv = nontriv or res.struct_changed
       pre = res.post
-      if res.violated or res.issue_keys:
+      known = res.issue_keys        # non-empty only after a known finding: the walk goes on, only NEW issues are reported
+      if res.finding and not res.violated:
+        ctx.count("rw:continued-past-known-finding")
+      if res.violated:
         # the model is broken from here on: later findings would be consequences. The rest of the walk's call budget
         # continues on a fresh universe (a new history).
         ctx.count("rw:restart-after-violation")
         close_segment()
         u = build(which)
         pre = u.snapshot()
-        hist, outcomes, nontriv = [], [], False
+        hist, outcomes, nontriv, known = [], [], False, frozenset()
     close_segment()
     ctx.count("rw:walks")
     ctx.count("rw:steps", WALK_LEN)
